@@ -3,9 +3,11 @@
 
 package proxy
 
-// C10 — retry and time-limit policies bound attempts and waiting (plus the
-// last sentence of C08: a short-circuited call is a 503 / shortCircuited and
-// never reaches the transport).
+// C10 — retry and time-limit policies bound attempts and waiting. (The last
+// sentence of C08 — a short-circuited call is a 503 / shortCircuited and never
+// reaches the transport — is checked by the sub-harness harness/C08P.)
+// A second variant (scenario.net, c10net_test.go) runs the real http.Transport
+// over the simulated network against a scripted backend server.
 //
 // System under test: the real ServerPool (NewServerPool, InjectResiliencePolicy,
 // handle, doHandle, buildResponse, buildFailureResponse), the real
@@ -45,14 +47,14 @@ package proxy
 //                               result "timeout" with status 408
 //   C10.spurious-cancel         the context handed to the transport is cancelled although the client did not
 //                               cancel and no time-out expired
-//   C10.cb-shortcircuit-status     result shortCircuited without a 503 response
-//   C10.cb-shortcircuit-transport  result shortCircuited although the transport was called
 //   C10.cb-shortcircuit-while-closed  request short-circuited although "one record per client request"
 //                               cannot have opened the breaker yet
 //   C10.cb-admitted-while-open  request admitted although "one record per client request" has opened
 //                               the breaker (waitDurationInOpenState is 24 h in every scenario)
 //   C10.panic                   a panic escaped ServerPool.handle
-//   C10.other                   unknown request at the transport, missing response ...
+//   C10.other                   unknown request at the transport, missing response, a shortCircuited result
+//                               without 503 / with a transport call (that rule belongs to C08: sub-harness
+//                               harness/C08P, classes C08.proxy-*) ...
 //
 // Leniency decisions (statement silent / two readings):
 //   * back-off is only bounded from below (the statement says "at least"; scheduler stalls can
@@ -682,9 +684,9 @@ func c10Exec(r *sim.Run, sci interface{}) {
 			sawShort = true
 			switch {
 			case n > 0:
-				r.Violate("C10.cb-shortcircuit-transport", "request %s reported shortCircuited but the transport was called %d time(s)\n%s\nhistory: %s", st.name, n, describe(), history())
+				r.Violate("C10.other", "request %s reported shortCircuited but the transport was called %d time(s) (shape of a short-circuited call: see sub-harness C08P)\n%s\nhistory: %s", st.name, n, describe(), history())
 			case !hasResp || status != http.StatusServiceUnavailable:
-				r.Violate("C10.cb-shortcircuit-status", "request %s reported shortCircuited with status %d (response present: %v), expected 503\n%s", st.name, status, hasResp, describe())
+				r.Violate("C10.other", "request %s reported shortCircuited with status %d (response present: %v), expected 503 (shape of a short-circuited call: see sub-harness C08P)\n%s", st.name, status, hasResp, describe())
 			case !cb.On:
 				r.Violate("C10.cb-shortcircuit-while-closed", "request %s short-circuited but the pool has no circuit breaker\n%s", st.name, describe())
 			}
